@@ -46,6 +46,9 @@ type c11Scenario struct {
 	Bursts     [][]c11Notif `json:"bursts"`
 	EndOnClose bool         `json:"end_on_close"` // the server confirms CloseStream with STREAM_END(closed), as a real node does
 	Stored     []int        `json:"stored"`       // per vBucket (cyclic): acknowledged + saved position before the first burst
+	// Gate (direct mode): rollback mitigation is on (real polling against an in-process simulated cluster, streams played
+	// by the harness) and an event above what the cluster has persisted is parked in the gate when the first burst begins
+	Gate bool `json:"gate,omitempty"`
 }
 
 type c11NotifRec struct {
@@ -96,6 +99,25 @@ func c11Child(raw json.RawMessage) any {
 	}
 	cl := newFakeClient(c11NumVb)
 	cl.endOnClose = sc.EndOnClose
+	var lb *lbEnv
+	if sc.Gate && sc.Mode == "direct" {
+		lb = newLBFresh(3, c11NumVb, 1)
+		cfg.Hosts = []string{"127.0.0.1"}
+		cfg.RollbackMitigation.Disabled = false
+		cfg.RollbackMitigation.Interval = 200 * time.Millisecond // the gate re-checks every interval/5
+		cfg.RollbackMitigation.ConfigWatchInterval = 30 * time.Millisecond
+		cfg.ConnectionTimeout = 5 * time.Second
+		cl.agent = lb.agent
+		cl.snapFn = lb.dcp.ConfigSnapshot
+		lb.c.Lock()
+		for v := 0; v < c11NumVb; v++ {
+			lb.c.High[uint16(v)] = 1 << 30
+			for srv := 0; srv < 3; srv++ {
+				lb.c.Persist[[2]int{v, srv}] = [2]uint64{0xA1, 1 << 20} // everything streamed below is persisted ...
+			}
+		}
+		lb.c.Unlock()
+	}
 	fm := newFakeMeta()
 	hand := &fakeHandler{}
 	cons := &fakeConsumer{}
@@ -242,6 +264,26 @@ func c11Child(raw json.RawMessage) any {
 			}
 		}
 		cl.mu.Unlock()
+	}
+	if lb != nil {
+		// ... except one event far above it on the first vBucket of the range: it parks inside the gate, on the
+		// harness's feeder goroutine (one feeder per vBucket, as a connection's read loop)
+		time.Sleep(2 * cfg.RollbackMitigation.Interval) // the thresholds are known by now
+		if o := cl.observer(uint16(curLo)); o != nil {
+			go func() {
+				defer func() {
+					if r := recover(); r != nil && os.Getenv("VERIF_DEBUG") != "" {
+						fmt.Fprintln(os.Stderr, "DBG parked feeder panicked:", r)
+					}
+				}()
+				o.SnapshotMarker(models.DcpSnapshotMarker{VbID: uint16(curLo), StartSeqNo: 1 << 10, EndSeqNo: 1<<30 + 5}) // the marker itself lies below the threshold and passes
+				o.Mutation(gocbcore.DcpMutation{SeqNo: 1<<30 + 5, VbID: uint16(curLo), Key: []byte("parked"), Cas: 1})
+				if os.Getenv("VERIF_DEBUG") != "" {
+					fmt.Fprintln(os.Stderr, "DBG parked feeder returned at", tick(), "consumed", cons.count(), "names", hand.names())
+				}
+			}()
+			time.Sleep(20 * time.Millisecond)
+		}
 	}
 	for bi, burst := range sc.Bursts {
 		leader := burst[0]
@@ -607,6 +649,7 @@ func c11Gen(rt *rapid.T) c11Scenario {
 	sc := c11Scenario{Mode: rapid.SampledFrom([]string{"direct", "direct", "direct", "bus", "busdelay", "busdelay"}).Draw(rt, "mode"),
 		DelayMs: rapid.SampledFrom([]int{60, 100, 160}).Draw(rt, "delay"), EndOnClose: rapid.Bool().Draw(rt, "endonclose")}
 	sc.Stored = rapid.SliceOfN(rapid.IntRange(0, 9), 1, 8).Draw(rt, "stored")
+	sc.Gate = sc.Mode == "direct" && rapid.IntRange(0, 3).Draw(rt, "gate") == 0
 	if sc.Mode == "bus" {
 		sc.DelayMs = 300
 	}
@@ -711,6 +754,9 @@ func TestC11_Rebalance(t *testing.T) {
 			}
 		}
 		labs := []string{"cases", "mode_" + scs[i].Mode}
+		if scs[i].Gate {
+			labs = append(labs, "event_parked_in_mitigation_gate")
+		}
 		for s := range states {
 			labs = append(labs, "notif_"+s)
 		}
